@@ -299,18 +299,19 @@ mod v_iface_ingress6 {
         kani::cover!(reply.is_some() && own, "port unreachable sent");
     }
 
-    // @harness props=C11,C10,C03 cfg=KI6i tier=q to=1500 mem=12 unwind=20 opts=nomem covers=2 funcs=InterfaceInner::process_ip;InterfaceInner::process_ipv6;InterfaceInner::process_icmpv6;InterfaceInner::icmpv6_reply bounds=raw-IP_medium;_own_fe80::1_and_2001:db8::1;_source_with_4_and_destination_with_9_symbolic_octets_(all_address_classes);_ICMPv6_echo_request/reply_or_error_types_with_4_data_bytes
+    // One harness per ICMPv6 type octet: with a symbolic type the symbolic execution explores every message parser
+    // for every type and ran out of 12 GB (same observation as in wire_views.rs).  NDISC and MLD have their own harnesses.
     #[cfg(feature = "socket-icmp")]
-    #[kani::proof]
-    pub(crate) fn ipv6_addr_icmp() {
+    fn icmp6_case(ty: u8, finding_region: bool) {
         env6_icmp!(iface, sockets, ih);
         let src = any_src();
         let dst = any_dst();
+        // source ::1 arriving from the network: second face of known finding F-C11-ipv6-loopback-from-network (the
+        // answer to an echo request for a multicast group is sourced from ::1, get_source_address_ipv6's choice for a
+        // loopback destination); excluded here, asserted in finding_ipv6_loopback_source_echo
+        kani::assume((src == LOOPBACK) == finding_region);
         // ::1: known finding F-C11-ipv6-loopback-from-network
         kani::assume(dst != LOOPBACK);
-        let ty: u8 = kani::any();
-        // echo request / reply and the error types; NDISC and MLD have their own harnesses
-        kani::assume(ty == 128 || ty == 129 || ty <= 4);
         let mut b = [0u8; 52];
         ipv6_header(&mut b, 12, 58, 64, &src, &dst);
         b[40] = ty;
@@ -334,8 +335,57 @@ mod v_iface_ingress6 {
         if ty == 128 && own && unicast_src(&src) && b[41] == 0 {
             crate::vassert!(reply.is_some(), "prop:c03_echo_request_to_own_address_answered");
         }
-        kani::cover!(reply.is_some() && own, "echo reply");
-        kani::cover!(reply.is_none() && ty == 1, "incoming ICMPv6 error ignored");
+        kani::cover!(if ty == 128 { reply.is_some() && own } else { reply.is_none() && own }, "echo request to an own address answered / other message to an own address not answered");
+        kani::cover!(reply.is_none() && !addressed(&dst), "message for a foreign destination ignored");
+    }
+
+    // @harness props=C11,C10,C03 cfg=KI6i tier=q to=1500 mem=12 unwind=20 opts=nomem covers=2 funcs=InterfaceInner::process_ip;InterfaceInner::process_ipv6;InterfaceInner::process_icmpv6;InterfaceInner::icmpv6_reply bounds=raw-IP_medium;_own_fe80::1_and_2001:db8::1;_source_with_4_and_destination_with_9_symbolic_octets_(all_address_classes);_ICMPv6_echo_request_with_4_data_bytes,_any_code_and_ident/seq
+    #[cfg(feature = "socket-icmp")]
+    #[kani::proof]
+    pub(crate) fn ipv6_addr_icmp() {
+        icmp6_case(128, false);
+    }
+
+    // @harness props=C10,C11 kind=finding cfg=KI6i tier=q to=1500 mem=12 unwind=20 opts=nomem covers=0 funcs=InterfaceInner::process_ip;InterfaceInner::process_ipv6;InterfaceInner::process_icmpv6;InterfaceInner::icmpv6_reply bounds=raw-IP_medium;_own_fe80::1_and_2001:db8::1;_source_::1_(from_the_network)_and_destination_with_9_symbolic_octets_(all_address_classes);_ICMPv6_echo_request_with_4_data_bytes,_any_code_and_ident/seq
+    #[cfg(feature = "socket-icmp")]
+    #[kani::proof]
+    pub(crate) fn finding_ipv6_loopback_source_echo() {
+        icmp6_case(128, true);
+    }
+
+    // @harness props=C11,C10,C03 cfg=KI6i tier=q to=1500 mem=12 unwind=20 opts=nomem covers=2 funcs=InterfaceInner::process_ip;InterfaceInner::process_ipv6;InterfaceInner::process_icmpv6;InterfaceInner::icmpv6_reply bounds=raw-IP_medium;_own_fe80::1_and_2001:db8::1;_source_with_4_and_destination_with_9_symbolic_octets_(all_address_classes);_ICMPv6_echo_reply_with_4_data_bytes
+    #[cfg(feature = "socket-icmp")]
+    #[kani::proof]
+    pub(crate) fn ipv6_addr_icmp_echo_reply() {
+        icmp6_case(129, false);
+    }
+
+    // @harness props=C11,C10,C03 cfg=KI6i tier=q to=1500 mem=12 unwind=20 opts=nomem covers=2 funcs=InterfaceInner::process_ip;InterfaceInner::process_ipv6;InterfaceInner::process_icmpv6;InterfaceInner::icmpv6_reply bounds=raw-IP_medium;_own_fe80::1_and_2001:db8::1;_source_with_4_and_destination_with_9_symbolic_octets_(all_address_classes);_ICMPv6_destination_unreachable_(type_1)_with_any_code_and_8_following_octets
+    #[cfg(feature = "socket-icmp")]
+    #[kani::proof]
+    pub(crate) fn ipv6_addr_icmp_dst_unreachable() {
+        icmp6_case(1, false);
+    }
+
+    // @harness props=C11,C10,C03 cfg=KI6i tier=t to=1500 mem=12 unwind=20 opts=nomem covers=2 funcs=InterfaceInner::process_ip;InterfaceInner::process_ipv6;InterfaceInner::process_icmpv6;InterfaceInner::icmpv6_reply bounds=raw-IP_medium;_own_fe80::1_and_2001:db8::1;_source_with_4_and_destination_with_9_symbolic_octets_(all_address_classes);_ICMPv6_time_exceeded_(type_3)
+    #[cfg(feature = "socket-icmp")]
+    #[kani::proof]
+    pub(crate) fn ipv6_addr_icmp_time_exceeded() {
+        icmp6_case(3, false);
+    }
+
+    // @harness props=C11,C10,C03 cfg=KI6i tier=t to=1500 mem=12 unwind=20 opts=nomem covers=2 funcs=InterfaceInner::process_ip;InterfaceInner::process_ipv6;InterfaceInner::process_icmpv6;InterfaceInner::icmpv6_reply bounds=raw-IP_medium;_own_fe80::1_and_2001:db8::1;_source_with_4_and_destination_with_9_symbolic_octets_(all_address_classes);_ICMPv6_packet_too_big_(type_2)
+    #[cfg(feature = "socket-icmp")]
+    #[kani::proof]
+    pub(crate) fn ipv6_addr_icmp_pkt_too_big() {
+        icmp6_case(2, false);
+    }
+
+    // @harness props=C11,C10,C03 cfg=KI6i tier=t to=1500 mem=12 unwind=20 opts=nomem covers=2 funcs=InterfaceInner::process_ip;InterfaceInner::process_ipv6;InterfaceInner::process_icmpv6;InterfaceInner::icmpv6_reply bounds=raw-IP_medium;_own_fe80::1_and_2001:db8::1;_source_with_4_and_destination_with_9_symbolic_octets_(all_address_classes);_ICMPv6_parameter_problem_(type_4)
+    #[cfg(feature = "socket-icmp")]
+    #[kani::proof]
+    pub(crate) fn ipv6_addr_icmp_param_problem() {
+        icmp6_case(4, false);
     }
 
     // unknown next header: ParamProblem only for unicast destinations (RFC 4443 2.4 e).
